@@ -257,8 +257,42 @@ pub fn run_server_model(cfg: &ScenCfg, out: &mut RunOut) {
     if !check_opens(&expected_opens, out, "start") {
         return;
     }
+    // Which of the two legal reactions to a frame that does not verify does this implementation have? Such a
+    // frame is never acted on (C06); ending the session over it (and re-opening the port after the retry delay)
+    // is what the library does, dropping it and staying on the port is equally within C06/C07. One lone frame
+    // with a bad CRC decides it for the run; the model follows.
+    let skip_bad_crc = {
+        let mut f = rtu_frame(units.keys().next().copied().unwrap_or(1), &[3, 0, 0, 0, 1]);
+        let n = f.len();
+        f[n - 1] ^= 0x01;
+        let at = kernel::now_ns();
+        serial::line_write(PATH, &f);
+        kernel::advance(6 * MS);
+        let got = serial::line_take(PATH);
+        let calls = rig.journal.lock().unwrap().len();
+        if !got.is_empty() || calls != 0 {
+            let d = format!("a lone frame whose CRC does not verify ({}) was acted on: line carries {}, {} handler calls", hex(&f), hex(&got[..got.len().min(24)]), calls);
+            out.violate("C06", "rtu_bad_crc_frame_acted_on", d.clone());
+            out.violate("C02", "rtu_bad_crc_frame_acted_on", d);
+            return;
+        }
+        let t = at + retry.disconnected();
+        kernel::advance_to(t);
+        if serial::opens(PATH).len() == expected_opens.len() && serial::is_open(PATH) {
+            out.probe("rtu_bad_crc_session_kept_by_impl");
+            true
+        } else {
+            expected_opens.push((t, true));
+            retry.reset();
+            if !check_opens(&expected_opens, out, "after a lone frame with a bad CRC") {
+                return;
+            }
+            false
+        }
+    };
     let nbursts = 1 + choose(10) as usize;
     let mut wl = dec_idx as u64;
+    let lenient_mode = skip_bad_crc;
     let mut journal_pos = 0usize;
     let mut pending: Vec<u8> = Vec::new(); // bytes delivered but not yet framed by the model
     let mut samples = Vec::new();
@@ -266,6 +300,8 @@ pub fn run_server_model(cfg: &ScenCfg, out: &mut RunOut) {
     let mut action = 0u32;
     #[allow(unused_assignments)]
     let mut journal_deviated = false;
+    let mut kept_after_bad_crc = false;
+    let _ = kept_after_bad_crc;
     'outer: for _ in 0..nbursts {
         // decode-level changes (also mid-frame, between chunks)
         let nframes = 1 + weighted(&[5, 2, 1]) as usize;
@@ -336,10 +372,35 @@ pub fn run_server_model(cfg: &ScenCfg, out: &mut RunOut) {
         kernel::advance(6 * MS * nframes as u64);
         pending.extend_from_slice(&burst);
         // model: frame the accumulated stream
-        let (items, used) = rtu_deframe(RtuDir::Request, &pending);
+        let (items, used) = {
+            // (an implementation that drops frames with a bad CRC goes on with what follows them)
+            let mut items = Vec::new();
+            let mut used = 0usize;
+            loop {
+                let (it, u) = rtu_deframe(RtuDir::Request, &pending[used..]);
+                used += u;
+                let skip = match it.last() {
+                    Some(RtuItem::BadCrc { total }) if skip_bad_crc => Some(*total),
+                    _ => None,
+                };
+                items.extend(it);
+                match skip {
+                    Some(total) => {
+                        items.pop();
+                        used += total;
+                        out.probe("rtu_bad_crc_frame_skipped_by_model");
+                    }
+                    None => break,
+                }
+            }
+            (items, used)
+        };
         let mut expected_bytes = Vec::new();
         let mut exps: Vec<Expected> = Vec::new();
         let mut error = false;
+        // the burst ends with a complete frame whose CRC does not verify (and with nothing else wrong)
+        let mut bad_crc = false;
+        let mut bad_total = 0usize;
         let mut classes = Vec::new();
         for it in &items {
             match it {
@@ -358,6 +419,12 @@ pub fn run_server_model(cfg: &ScenCfg, out: &mut RunOut) {
                 RtuItem::Error => {
                     error = true;
                     classes.push("framing_error".into());
+                }
+                RtuItem::BadCrc { total } => {
+                    error = true;
+                    bad_crc = true;
+                    bad_total = *total;
+                    classes.push("bad_crc".into());
                 }
             }
         }
@@ -433,6 +500,7 @@ pub fn run_server_model(cfg: &ScenCfg, out: &mut RunOut) {
             out.probe("framing_error_injected");
             // the session ends; the port is reopened after the retry delay (the
             // implementation keeps the descriptor until then, which the property allows)
+            let after_bad_frame: Vec<u8> = if bad_crc { pending[bad_total.min(pending.len())..].to_vec() } else { Vec::new() };
             pending.clear();
             // the bad frame is examined once the replies to the frames before it are written
             let last_write = serial::writes(PATH).last().map(|w| w.0).unwrap_or(0);
@@ -479,6 +547,10 @@ pub fn run_server_model(cfg: &ScenCfg, out: &mut RunOut) {
             action += 1;
             // bytes sent while the port is closed are lost on a UART: probe liveness afterwards
             kernel::advance_to(t);
+            // A frame with a bad CRC is never acted on (checked above); that the session ends over it is what the
+            // library does, not something a property demands. If the implementation made no attempt to re-open
+            // the port and is still on it, it has dropped the frame and carries on: so does the model
+            let _ = (&after_bad_frame, bad_crc, &mut kept_after_bad_crc);
             if !check_opens(&expected_opens, out, "after framing error") {
                 // recorded (C14, C06); carry on from what the implementation did, so that what it does
                 // to the frames that follow is judged as well
@@ -495,6 +567,10 @@ pub fn run_server_model(cfg: &ScenCfg, out: &mut RunOut) {
         } else if serial::opens(PATH).len() != expected_opens.len() || !serial::is_open(PATH) {
             let d = format!("burst {:?}: the port was closed/reopened although every frame was valid (frames {:?})", descs, classes);
             out.violate("C06", "valid_frame_fatal", d.clone());
+            if kept_after_bad_crc || lenient_mode {
+                // (or it is the late end of a session over an earlier bad frame: then the re-open delay was not the announced one)
+                out.violate("C14", "valid_frame_fatal", d.clone());
+            }
             out.violate("C01", "valid_frame_fatal", d);
             break 'outer;
         }
